@@ -89,8 +89,9 @@ theorem copyKernel_run (c : Cfg) (hv : c.Valid) (hG : 0 < c.G) (tail pk : List N
   rw [hr]
   exact ⟨h1, h2⟩
 
-/-- **memcopyD2D_correct.** `MemCopyD2D(dst, src, num)`, `1 ≤ num < 2^31`: the `num` bytes are copied and
-    nothing outside `[dst, dst + 4⌈num/4⌉)` changes. -/
+/-- **memcopyD2D_correct.** The launch shape `MemCopyD2D(dst, src, num)` had BEFORE the repair f8227823
+    (`G = ⌈num/4⌉`, `N = num`), `1 ≤ num < 2^31`: the `num` bytes are copied and nothing outside
+    `[dst, dst + 4⌈num/4⌉)` changes.  The repaired driver is the subject of `memcopyD2D_exact` (Props/C01D2D.lean). -/
 theorem memcopyD2D_correct (co ka pa src dst num : Nat) (hnum : 0 < num)
     (hv : (d2dCfg co ka pa src dst num).Valid) (tail pk : List Nat) (m : Mem)
     (hpk : 8 ≤ pk.length) (h4 : pk.getD 4 0 = 64) (h5 : pk.getD 5 0 = 0)
@@ -111,7 +112,8 @@ theorem memcopyD2D_correct (co ka pa src dst num : Nat) (hnum : 0 < num)
   · exact absurd h3 (by show ¬ dst ≤ a; omega)
   · exact absurd h4' (by show ¬ a < dst + 4 * ((num + 3) / 4); omega)
 
-/-- **memcopyD2D_tail_overrun.** When `num` is not a multiple of 4, the kernel copies the whole last dword:
+/-- **memcopyD2D_tail_overrun** (the defect that was repaired: this is a theorem about the OLD launch shape
+    `d2dCfg`, kept as the record of why the repair was needed). When `num` is not a multiple of 4, the kernel copies the whole last dword:
     the bytes `dst[num .. 4⌈num/4⌉)` — up to three bytes BEHIND the requested range — are overwritten with
     the bytes following the source range.  (Observed on the real emulator in every run of the harness:
     `deep-copy-tail-overrun`; harmless only because `AllocateMemory` hands out whole pages.) -/
